@@ -1,4 +1,4 @@
-import BobModel.Proofs.C06Tok
+import BobModel.Proofs.C06Lock
 /-
 C06 — parallel builds are schedule independent and bounded.
 
@@ -119,6 +119,38 @@ theorem running_le_jobs (hr : GoodRunners n r0) (h : Reach P cfg r0 st) : script
 /-- every task whose script runs owns a job slot, and the owners are at most the slots -/
 theorem owners_le_jobs (hr : GoodRunners n r0) (h : Reach P cfg r0 st) : holders st ≤ capacity n st :=
   (TokInv.reach hr h).holders_le
+
+/-! ### 3. workspaces are exclusive -/
+
+/-- per workspace at most one task is inside `async with self.__workspaceLock(step)` -/
+theorem lock_holders_le_one (hr : GoodRunners n r0) (h : Reach P cfg r0 st) (p : Nat) : lockHolders p st ≤ 1 :=
+  (LockInv.reach hr h).holders_le_one p
+
+/-- a script is started, runs and is recorded in `wasRun` only inside the lock of its workspace: every
+`run` / `runWait` / `underLock` / `setRun` operation of a continuation is followed by the `unlock` of its workspace -/
+theorem scripts_only_under_lock (hr : GoodRunners n r0) (h : Reach P cfg r0 st) :
+    ∀ x ∈ st.tasks, underLockOK P x.ops = true :=
+  (LockInv.reach hr h).sect
+
+/-- **exclusive** (second half of once_and_exclusive): in no reachable configuration two scripts run in the
+same workspace - whatever step objects (sandbox variants, checkoutOnly variants) share it. -/
+theorem exclusive (hr : GoodRunners n r0) (h : Reach P cfg r0 st) (p : Nat) :
+    tsum (Task.runningIn P p) st ≤ 1 :=
+  (LockInv.reach hr h).exclusive p
+
+/-- leaving `async with lock` never raises (`Lock.release()` finds the lock locked) -/
+theorem unlock_never_raises (hr : GoodRunners n r0) (h : Reach P cfg r0 st) {t p : Nat} {rest : List Op}
+    (hops : (st.task t).ops = .unlock p :: rest) : ∃ l, (st.lockOf p).release = .ok l :=
+  (LockInv.reach hr h).unlock_ok hops
+
+/-- the waiter list of a workspace lock has one entry per task suspended in `lock.acquire()`; at most one of
+them has been woken, and only while the lock is free -/
+theorem lock_accounting (hr : GoodRunners n r0) (h : Reach P cfg r0 st) (p : Nat) :
+    ((st.lockOf p).locked = true → lockHolders p st = 1 ∧ inflight (st.lockOf p).waiters = 0) ∧
+    ((st.lockOf p).locked = false → lockHolders p st = 0 ∧ inflight (st.lockOf p).waiters ≤ 1) ∧
+    (st.lockOf p).waiters.length = tsum (Task.waitingLock P p) st :=
+  let a := (LockInv.reach hr h).at_ p
+  ⟨a.locked, a.free, a.waiters⟩
 
 /-! non-vacuity: a diamond with a shared leaf, two jobs, a schedule that runs two scripts at once -/
 
